@@ -2,12 +2,17 @@
  * C03 numbering harness: the real fstree_post_process() (lib/fstree/src/post_process.c) on the same lines as
  * `sqfsmodel c03 ops`:
  *
- *   num <spec>        spec: the root's children in (name-sorted) order; f = non-directory, h = hard link entry,
- *                     ( ... ) = directory.  e.g.  num f(fh(f))f
+ *   num <spec>        spec: the root's children in (name-sorted) order; f = non-directory, h<k> = hard link entry
+ *                     pointing at the k-th f of the spec (counted from 0 in spec order; h = h0), ( ... ) = directory.
+ *                     e.g.  num f(fh1(f))fh3
  *
  * Nodes are named by their position (zero padded) so that the tree's own name sort keeps the order of the spec.
- * Hard links point at the first 'f' of the spec (an 'h' in a spec without 'f' is skipped by the generator).
- * Output: the same nesting with inode numbers:  n for f, - for h, ( ... )n for directories, root last:
+ * A link to an f that does not exist is answered with bad-op.
+ *   names <hex>...    fstree_add_generic of a fifo named <hex> (a path component) below "/" per token (insert_sorted,
+ *                     child_by_name, mknode); output: rc per name (0 | errno name), the root's children in list order,
+ *                     the root's link count:   rc=0,0,EEXIST order=61,62 link=4
+ *
+ * Output of num: the same nesting with inode numbers:  n for f, - for h, ( ... )n for directories, root last:
  *   (4 (2 - (1)3)5 6)7 count=7
  */
 #include "config.h"
@@ -17,7 +22,9 @@
 #include <string.h>
 #include <errno.h>
 
-static char first_file[4096];
+#define MAXFILES 100000
+static char *files[MAXFILES];
+static size_t nfiles;
 
 static sqfs_dir_entry_t *mkent(const char *path, sqfs_u16 mode, sqfs_u16 flags)
 {
@@ -41,16 +48,19 @@ static const char *build(fstree_t *fs, const char *s, const char *prefix, int pa
 				e = mkent(path, S_IFIFO | 0644, 0);
 				if (!fstree_add_generic(fs, e, NULL)) *err = 1;
 				free(e);
-				if (!first_file[0]) strcpy(first_file, path);
+				if (nfiles < MAXFILES) files[nfiles++] = strdup(path);
 			}
 			++s;
 		} else if (*s == 'h') {
+			size_t k = 0;
+			++s;
+			while (*s >= '0' && *s <= '9') k = k * 10 + (size_t)(*s++ - '0');
 			if (pass == 2) {
+				if (k >= nfiles) { *err = 2; return s; }
 				e = mkent(path, S_IFLNK | 0777, SQFS_DIR_ENTRY_FLAG_HARD_LINK);
-				if (!fstree_add_generic(fs, e, first_file)) *err = 1;
+				if (!fstree_add_generic(fs, e, files[k])) *err = 1;
 				free(e);
 			}
-			++s;
 		} else if (*s == '(') {
 			if (pass == 1) {
 				e = mkent(path, S_IFDIR | 0755, 0);
@@ -80,23 +90,66 @@ static void dump(tree_node_t *n)
 	printf(")%u", n->inode_num);
 }
 
+static int hexv(int c) { return c >= '0' && c <= '9' ? c - '0' : c >= 'a' && c <= 'f' ? c - 'a' + 10 : -1; }
+
+static void op_names(void)
+{
+	fstree_defaults_t def;
+	fstree_t fs;
+	tree_node_t *it;
+	char *tok;
+	int first = 1;
+	memset(&def, 0, sizeof(def));
+	def.mode = 0755;
+	if (fstree_init(&fs, &def)) { puts("err init"); return; }
+	fputs("rc=", stdout);
+	while ((tok = strtok(NULL, " \n")) != NULL) {
+		size_t n = strlen(tok) / 2, i;
+		sqfs_dir_entry_t *e = calloc(1, sizeof(*e) + n + 1);
+		int bad = (strlen(tok) % 2) != 0 || n == 0;
+		for (i = 0; i < n && !bad; ++i) {
+			int a = hexv(tok[2 * i]), b = hexv(tok[2 * i + 1]);
+			if (a < 0 || b < 0 || (a == 0 && b == 0) || (a * 16 + b) == '/') bad = 1; else e->name[i] = (char)(a * 16 + b);
+		}
+		if (bad) { free(e); fstree_cleanup(&fs); puts(" bad-op"); return; }
+		e->mode = S_IFIFO | 0644;
+		errno = 0;
+		if (!first) putchar(',');
+		first = 0;
+		if (fstree_add_generic(&fs, e, NULL)) putchar('0');
+		else fputs(errno == EEXIST ? "EEXIST" : errno == EMLINK ? "EMLINK" : "ERR", stdout);
+		free(e);
+	}
+	fputs(" order=", stdout);
+	if (!fs.root->data.children) putchar('-');
+	for (it = fs.root->data.children; it; it = it->next) {
+		const unsigned char *p;
+		if (it != fs.root->data.children) putchar(',');
+		for (p = (const unsigned char *)it->name; *p; ++p) printf("%02x", *p);
+	}
+	printf(" link=%u\n", fs.root->link_count);
+	fstree_cleanup(&fs);
+}
+
 int main(void)
 {
 	static char line[1 << 22];
 	while (fgets(line, sizeof(line), stdin)) {
-		char *op = strtok(line, " \n"), *spec = strtok(NULL, " \n");
+		char *op = strtok(line, " \n"), *spec;
 		fstree_defaults_t def;
 		fstree_t fs;
 		int err = 0;
+		if (op && !strcmp(op, "names")) { op_names(); fflush(stdout); continue; }
+		spec = strtok(NULL, " \n");
 		if (!op || strcmp(op, "num")) { puts("bad-op"); continue; }
 		if (!spec) spec = "";
 		memset(&def, 0, sizeof(def));
 		def.mode = 0755;
-		first_file[0] = 0;
+		while (nfiles) free(files[--nfiles]);
 		if (fstree_init(&fs, &def)) { puts("err init"); continue; }
 		if (*build(&fs, spec, "", 1, &err) || err) { puts(err == 2 ? "bad-op" : "err add"); fstree_cleanup(&fs); continue; }
 		build(&fs, spec, "", 2, &err);
-		if (err) { puts("err link"); fstree_cleanup(&fs); continue; }
+		if (err) { puts(err == 2 ? "bad-op" : "err link"); fstree_cleanup(&fs); continue; }
 		if (fstree_post_process(&fs)) { puts("err post"); fstree_cleanup(&fs); continue; }
 		dump(fs.root);
 		printf(" count=%zu\n", fs.unique_inode_count);
